@@ -51,8 +51,8 @@ Quote == <<"dq", "none", "sq">>
 (* ---------------- content catalogues ---------------- *)
 Cat8 ==
   << W("w1"),
-     <<T(<<"w1", "SP", "w2">>)>>,
-     <<Tp(<<W("t"), W("a1")>>)>>,
+     <<T(<<"k", "=", "v1">>)>>,                                      \* text that looks like an attribute
+     <<Tp(<<W("t"), <<T(<<"k", "=", "v1">>)>>>>)>>,                  \* {{t|k=v1}}
      <<Lk(<<W("l"), W("x1")>>, <<>>)>>,
      <<It(W("i1"))>>,
      <<Bo(W("b1"))>>,
@@ -68,7 +68,7 @@ Cat17 ==
      <<>>,
      <<Ar(<<W("1"), W("d1")>>)>>,
      <<It(<<Lk(<<W("l"), W("x1")>>, <<>>)>>)>>,
-     <<T(<<"w1", "SP">>), Ht("b", <<>>, W("h2")), T(<<"SP", "w2">>)>> >>
+     <<Tp(<<W("t"), W("a1")>>), T(<<"SP", "w1", "SP", "w2">>)>> >>
 
 (* ---------------- grids ---------------- *)
 KindAt(kp, i, j) ==
